@@ -448,7 +448,9 @@ func checkCache(h *History, vs []*opView) {
 		// ---- C08: ageing
 		// earliest moment the proxy can have built this response (a large one may
 		// spend many round trips on its way to the client)
-		servedFrom := d.at - clMax
+		// (the proxy ages the entry when it looks it up, which is up to the
+		// scheduling slack earlier than the moment it writes the response)
+		servedFrom := d.at - clMax - sigma
 		if len(d.raw) > 8192 || servedFrom < v.o.SentAt+clMin {
 			servedFrom = v.o.SentAt + clMin
 		}
